@@ -122,9 +122,10 @@ class AFMWriter(ModelToText):
         return result
 
     def read_operand(self, node: Node) -> str:
-        """Operands that are binary expressions are parenthesised to keep the structure."""
+        """Operands that are expressions themselves are parenthesised to keep the structure
+        (the AFM grammar does not accept a bare NOT as the operand of a binary operator)."""
         result = self.recursive_constraint_read(node)
-        if node.left and node.right:
+        if node.left or node.right:
             result = " (" + result.strip() + ") "
         return result
 
